@@ -44,7 +44,36 @@ REPO_SOURCES = [
 
 
 def translate(repo_root, lean_root):
-    return logdefs.translate(repo_root, lean_root)
+    """regenerate Generated/LogDefs.lean; when the source cannot be followed the error is passed on (broken tie),
+    but a generated file left behind by a run on *another* tree is first replaced by the committed one (the model
+    of the unchanged code), so that the search for a failing input compares against a defined model"""
+    try:
+        return logdefs.translate(repo_root, lean_root)
+    except logdefs.TranslateError:
+        _restore_committed(lean_root)
+        raise
+
+
+def _restore_committed(lean_root):
+    import subprocess
+    rel = "lean/CelmaVerif/Generated/LogDefs.lean"
+    out = os.path.join(lean_root, "CelmaVerif", "Generated", "LogDefs.lean")
+    try:
+        text = subprocess.run(["git", "-C", vlib.VERIF, "show", "HEAD:" + rel], capture_output=True, timeout=30,
+                              check=True).stdout.decode("utf-8")
+        if not text.strip():
+            return
+        try:
+            old = open(out, encoding="utf-8").read()
+        except OSError:
+            old = None
+        if old != text:
+            tmp = out + ".tmp%d" % os.getpid()
+            with open(tmp, "w", encoding="utf-8") as f:
+                f.write(text)
+            os.replace(tmp, out)
+    except Exception:        # no git, no committed copy: leave the file as it is
+        pass
 
 
 PROPERTIES = {
@@ -53,7 +82,8 @@ PROPERTIES = {
         "kind": "functional",
         "translators": [translate],
         "trusted": [
-            "translate/logdefs.py (regenerates Generated/LogDefs.lean: enumerators, text tables, bitset size "
+            "translate/logdefs.py with its C++ front end logdefs_cxx.py / logdefs_norm.py (regenerates Generated/LogDefs.lean "
+            "from the normal form of the anchored functions: enumerators, text tables, bitset size "
             "expression, comparison operators, duplicate policies, Filters() / checkSetFilter shape; raises when a "
             "construct is not understood)",
             "hand-written model CelmaVerif/Model/Log.lean of logging.cpp, log.cpp, i_log_dest.cpp, filters.cpp, "
@@ -117,11 +147,7 @@ def class_texts():
     """display texts of the classes (index -> text) from the current source; only the *names*, nothing else"""
     global _TEXTS
     if _TEXTS is None:
-        src = logdefs.read(vlib.REPO, "celma/log/detail/log_defs.hpp")
-        classes = logdefs.enum_of(src, "LogClass")
-        cases, _ = logdefs.text_switch(src, "logClass2text", "LogClass", classes)
-        _TEXTS = {i: t for i, t in cases if i != 0}
-        _TEXTS["n"] = len(classes)
+        _TEXTS = logdefs.class_text_table(vlib.REPO)
     return _TEXTS
 
 
